@@ -280,6 +280,7 @@ def verify(contract, tier, check, budget=None, prefix=None):
             st.env.update(values)
             st0 = st.clone()
             a = NS({k: specval(v, st, None) for k, v in values.items()})
+            a.__dict__["_raw"] = values
             for req in (contract.requires, shape.requires):
                 if req is None:
                     continue
@@ -321,6 +322,7 @@ def verify(contract, tier, check, budget=None, prefix=None):
                     ex.oblige(s, f"raises.{exc}.required", S.Not(c), label="returns normally only when the exception is not due")
                 if contract.ensures is not None:
                     try:
+                        a.__dict__["final"] = NS({k: specval(v, s, ex) for k, v in values.items()})
                         post = contract.ensures(a, specval(oc[1], s, ex))
                     except Unsupported as u:
                         ex.oblige(s, "post.unsupported", z3.BoolVal(False), label=str(u))
